@@ -57,15 +57,17 @@ def values(rec, n):
     if k == "iu":
         return g.permutation(np.arange(-3, 4 * n - 3, 4))[:n].astype("i8")
     if k == "s":
-        return np.array([("k%d" % t).encode() for t in g.integers(0, max(2, n), n)], dtype="S6")
+        m = min(max(2, n), 5000)
+        return np.array([("k%d" % t).encode() for t in range(m)], dtype="S6")[g.integers(0, m, n)]
     if k == "u":
-        return np.array(["n%d" % t for t in g.integers(0, max(2, n), n)], dtype="U5")
+        m = min(max(2, n), 5000)
+        return np.array(["n%d" % t for t in range(m)], dtype="U5")[g.integers(0, m, n)]
     if k == "rec":
         a = np.zeros(n, dtype=[("id", "i4"), ("ra", "f8"), ("flux", "f4", (2,)), ("tag", "S4"), ("m", "i2")])
         a["id"] = np.arange(n)
         a["ra"] = np.round(g.uniform(0, 360, n), 5)
         a["flux"] = np.round(g.normal(0, 3, (n, 2)), 2)
-        a["tag"] = [("t%d" % t).encode() for t in g.integers(0, 50, n)]
+        a["tag"] = np.array([("t%d" % t).encode() for t in range(50)], dtype="S4")[g.integers(0, 50, n)]
         a["m"] = g.integers(-300, 300, n)
         return a
     if k == "rec2":
@@ -585,11 +587,18 @@ def plan(S, prop, mode, tier, avoid):
     n = wpick(cfg, [(1, 1), (2, 1), (3, 1), (cfg.randrange(4, 12), 4), (cfg.randrange(12, 40), 3),
                     (cfg.randrange(1024, 2100), 0.35)])
     fams = [f for f in FAMILIES if chance(cfg, 0.6)] or [pick(cfg, FAMILIES)]
+    if chance(cfg, 0.0015):
+        # a catalogue-sized session: just above 2**20 elements (block sizes hidden in a callee), restricted to the
+        # families whose cost is linear in n
+        n = (1 << 20) + cfg.randrange(1, 70)
+        fams = [f for f in ("coords", "cosmology", "byteorder") if chance(cfg, 0.7)] or ["coords"]
     names = [nm for nm in NAMES if SITES[nm][0] in fams]
+    if n > 100000:
+        names = [nm for nm in names if nm not in ("sphdist", "gcirc", "rotate")] or names
     r = S.py("session")
     pool = []
     ops = []
-    nops = r.randrange(2, 11)
+    nops = r.randrange(2, 11) if n < 100000 else r.randrange(2, 6)
     for j in range(nops):
         name = pick(r, names)
         kinds = SITES[name][1]
